@@ -1,4 +1,5 @@
 //! Shared machinery of the correspondence harness: PRNG, driver pipe, report writer.
+pub mod cfbpatch;
 pub mod cfbw;
 pub mod driver;
 pub mod odsw;
